@@ -218,7 +218,11 @@ func (c *caseRun) fetchOpts(i Obj, f []Atom, src *fetchSrc) []krt.FetchOption {
 		case "key":
 			opts = append(opts, krt.FilterKey(i.Ref))
 		case "selects":
-			opts = append(opts, krt.FilterSelects(nonNil(i.Labels)))
+			if i.LabelsNil {
+				opts = append(opts, krt.FilterSelects(nil)) // a nil map: the filter is off
+			} else {
+				opts = append(opts, krt.FilterSelects(nonNil(i.Labels)))
+			}
 		case "selectsNE":
 			opts = append(opts, krt.FilterSelectsNonEmpty(i.Labels))
 		case "label":
@@ -775,7 +779,7 @@ func (c *caseRun) setFlags(flags []string) {
 // newRunner builds the program named by the case header (nil: malformed header).
 func newRunner(head []string) runner {
 	if len(head) >= 3 && head[0] == "case" && strings.HasPrefix(head[2], "mem") {
-		return newMemRun()
+		return newMemRun(head[3:]...)
 	}
 	if len(head) >= 3 && head[0] == "case" && strings.HasPrefix(head[2], "misc") {
 		return newMiscRun()
